@@ -172,7 +172,7 @@ def model_block(b, templates):
     if o == "copy":
         return f"copy {b['kind']} {b['src']} {b['a']} {b['a'] if b['b'] is None else b['b']}"
     if o == "del":
-        return "del " + " ".join(f"{l[0]}:" + ",".join(mtok(t) for t in l[2]) for l in b["lines"])
+        return "del " + " ".join((f"{l[0]}={l[1]}:" if l[1] else f"{l[0]}:") + ",".join(mtok(t) for t in l[2]) for l in b["lines"])
     if o == "cells":
         return f"cells {b.get('opt', 'cells')} " + " ".join(mtok(t) for t in b["toks"])
     if o == "emix":
